@@ -69,6 +69,9 @@ def regen():
     """K1: regenerate coq/gen from the current /repo working tree."""
     build_goextract()
     run([os.path.join(BIN, "goextract"), REPO, os.path.join(COQ, "gen")], check=True, timeout=120)
+    if os.environ.get("VERIF_VOCACHE") == "1":
+        from . import vocache
+        vocache.restore()
 
 
 def ensure_makefile():
